@@ -688,6 +688,12 @@ pub fn run_check(def: &CheckDef, opts: &RunOpts) -> i32 {
         println!("note: {} further failing runs match no known finding and were not minimised (limit {})", unclassified, max_shrunk);
         violations += unclassified;
     }
+    if !reported.is_empty() && exit == 2 {
+        // at least one violation was minimised, written out and reproduced in a fresh process: that
+        // stands on its own feet, whatever else went wrong in other runs of this batch
+        println!("note: harness errors were reported above, but {} violation(s) were confirmed by replay in a fresh process: exit 1", reported.len());
+        exit = 1;
+    }
     if violations > 0 && exit == 0 {
         // can only happen if every minimised trace was lost on the way: never report success then
         println!("HARNESS-ERROR: {} failing runs match no known finding but no replay file could be produced", violations);
